@@ -13,8 +13,8 @@ def register(PROPS):
                  'the last), written as one EXDATE list (ascending and descending), as one EXDATE line per instant (both orders) or combined with '
                  'one of 5 DTSTART-synchronised EXRULEs, crossed with every subset of a 3-instant RDATE universe (one list or one line each), is '
                  'parsed by the real parser and the task stream is popped to its end; the delivered starts are compared with '
-                 '(rule instances u RDATE) minus the instants equal to an exception.  A second driver (c02_zonemix) writes every subset of up to 4 (thorough 5) exception instants of an HOURLY;INTERVAL=4 event with EVERY assignment of a written form to each value (UTC with Z, or local time of Asia/Tokyo, America/Phoenix, Asia/Kolkata via TZID), so lists whose raw values order differently from their instants are covered.  Its duprdate mode lists each of three instants 0, 1 or 2 times as RDATE (every written form per copy, or one comma list) against every EXDATE subset: delivered = (rule instances u listed) minus excepted, each once.  A third driver (c02_datelist) takes a 12-occurrence MONTHLY event at a fixed local time in Europe/Berlin, America/New_York and America/Sao_Paulo (7 or 8 occurrences on the other side of a DST switch; plus two DAILY x12 events that START within hours of a switch: Europe/Berlin 2015-03-29 01:30 and America/New_York 2015-11-01 03:00, where the wall clock read as UTC and the true UTC instant lie on opposite sides of it) and writes EVERY ORDERED sequence of 1..3 (thorough 4) days out of the 12 occurrence days and 2 other days as a VALUE=DATE EXDATE or RDATE list (one comma list, or one line per day); the delivered instants must be the own instants without the listed days (EXDATE), or united with the local time on the listed days (RDATE; taken from the same event run DAILY).  A fourth driver (c02_longlist) writes EXDATE and RDATE lists of every length n = 1..100 (thorough 1..300, and 520..1320 in steps of 100) on a DAILY event (DATE-TIME and DATE values, two value sets: n consecutive days, and n days spread by i*37 mod a prime) in the written orders ascending, descending, alternating from both ends, evens then odds, blocks of 4/7/10/16/25 with the latest block first, strides 3/7/11, and EVERY rotation (the n-p latest values first, then the p earliest; p = 1..n-1), at most 40 or at most 7 values a line (several lines), as EXDATE alone, RDATE alone (odd days against a rule on even days) and RDATE plus an EXDATE list naming half of the RDATEs and as many rule instances: the delivered starts must be the sorted (rule days u RDATE days) minus EXDATE days, each once.  A fifth driver (c02_clone) takes every subset of an 11-instant exception universe of a DAILY;COUNT=8 event (DATE-TIME and DATE) x {no EXRULE, 3 synchronised EXRULEs} x {no RDATE, 2 RDATEs}, and six EXDATE lists of 10..99 values on a DAILY;COUNT=150 event, and for EVERY number k of pops (0..all) with and without a following peek clones the stream (clone, clone of the clone, clone of that), pops the clones to their ends (before the original, or in turns with it) and requires each clone and the original to deliver exactly the expected set without its first k starts.  Complete within that bound.',
-        'note': 'Exception lists longer than 11 with anything but a DAILY rule, zero duration and UTC / DATE values (c02_longlist), date-time TZID values of zones with DST transitions, RDATE before DTSTART and EXRULEs not synchronised with DTSTART are outside.  '
+                 '(rule instances u RDATE) minus the instants equal to an exception.  A second driver (c02_zonemix) writes every subset of up to 4 (thorough 5) exception instants of an HOURLY;INTERVAL=4 event with EVERY assignment of a written form to each value (UTC with Z, or local time of Asia/Tokyo, America/Phoenix, Asia/Kolkata via TZID), so lists whose raw values order differently from their instants are covered.  Its duprdate mode lists each of three instants 0, 1 or 2 times as RDATE (every written form per copy, or one comma list) against every EXDATE subset: delivered = (rule instances u listed) minus excepted, each once.  Its paramorder mode writes every subset of up to 3 (thorough 4) instants as EXDATE, and of 3 instants as RDATE, with EVERY assignment of one of 11 line spellings to each value - UTC plain or with VALUE=DATE-TIME; each of the three zones with TZID only, VALUE=DATE-TIME;TZID= or TZID=;VALUE=DATE-TIME - one line per value, or one comma list per spelling: the parameters of a line in any order name the same instants.  A third driver (c02_datelist) takes a 12-occurrence MONTHLY event at a fixed local time in Europe/Berlin, America/New_York and America/Sao_Paulo (7 or 8 occurrences on the other side of a DST switch; plus two DAILY x12 events that START within hours of a switch: Europe/Berlin 2015-03-29 01:30 and America/New_York 2015-11-01 03:00, where the wall clock read as UTC and the true UTC instant lie on opposite sides of it) and writes EVERY ORDERED sequence of 1..3 (thorough 4) days out of the 12 occurrence days and 2 other days as a VALUE=DATE EXDATE or RDATE list (one comma list, or one line per day); the delivered instants must be the own instants without the listed days (EXDATE), or united with the local time on the listed days (RDATE; taken from the same event run DAILY); with form=zoned the same sequences (1..2, thorough 3 days) are written as date-times at the local time and with the TZID of the event, the line parameters as TZID only, VALUE=DATE-TIME;TZID= or TZID=;VALUE=DATE-TIME (one list per spelling, or one line per day with every assignment of spellings), and must name the same occurrences / add the same instants.  A fourth driver (c02_longlist) writes EXDATE and RDATE lists of every length n = 1..100 (thorough 1..300, and 520..1320 in steps of 100) on a DAILY event (DATE-TIME and DATE values, two value sets: n consecutive days, and n days spread by i*37 mod a prime) in the written orders ascending, descending, alternating from both ends, evens then odds, blocks of 4/7/10/16/25 with the latest block first, strides 3/7/11, and EVERY rotation (the n-p latest values first, then the p earliest; p = 1..n-1), at most 40 or at most 7 values a line (several lines), as EXDATE alone, RDATE alone (odd days against a rule on even days) and RDATE plus an EXDATE list naming half of the RDATEs and as many rule instances: the delivered starts must be the sorted (rule days u RDATE days) minus EXDATE days, each once.  A fifth driver (c02_clone) takes every subset of an 11-instant exception universe of a DAILY;COUNT=8 event (DATE-TIME and DATE) x {no EXRULE, 3 synchronised EXRULEs} x {no RDATE, 2 RDATEs}, and six EXDATE lists of 10..99 values on a DAILY;COUNT=150 event, and for EVERY number k of pops (0..all) with and without a following peek clones the stream (clone, clone of the clone, clone of that), pops the clones to their ends (before the original, or in turns with it) and requires each clone and the original to deliver exactly the expected set without its first k starts.  Complete within that bound.',
+        'note': 'Exception lists longer than 11 with anything but a DAILY rule, zero duration and UTC / DATE values (c02_longlist), date-time TZID values of zones with DST transitions other than the local time of the event in its own zone (c02_datelist form=zoned), RDATE before DTSTART and EXRULEs not synchronised with DTSTART are outside.  '
                 'The property quantifies over durations that do not reach the next occurrence; the events of the enumeration whose duration does '
                 '(the all-day daily event lasting one day; a mid-gap RDATE with a duration of gap/2 or more) are judged by the same start-equality '
                 'oracle but carry the duration class dur>=gap in their signatures and are not counted as non-trivial.  '
@@ -24,6 +24,7 @@ def register(PROPS):
                 'the text of the plain list form - several lines or reversed order with fewer than 2 instants - are not generated); '
                 'non-trivial = the exceptions name at least one instance of (rule u RDATE), at least one instance survives, and the duration '
                 'does not reach the next instance'
+                '; paramorder and form=zoned: one case = one event text, non-trivial = some line carries two parameters'
                 '; c02_longlist: one case = one event text, an order that repeats the value sequence of an earlier order for the same n (or a '
                 'layout that repeats the text) is skipped, non-trivial = more than 32 values not in ascending order; c02_clone: one case = one '
                 'event text (evaluations = parses: one per k x peek x popping order), non-trivial = at least two exceptions (EXDATE values or an '
@@ -34,10 +35,11 @@ def register(PROPS):
                      'listrev, lines, linesrev and exrule (5 rules, each with every EXDATE subset); all 8 RDATE subsets as one list and, for >= 2 '
                      'instants, one line each; plus the COUNT 3 part (forms list, lines, exrule) under ASan+bounds; long lists n = 1..100 in all orders '
                      'of the family (every rotation), modes exdate, rdate, both, plain and under ASan+bounds; clones after every k pops for COUNT=8 '
-                     '(2^11 exception subsets x 4 EXRULE choices x 2 RDATE choices x 2 value types) and the six long lists, COUNT=5 under ASan+bounds',
+                     '(2^11 exception subsets x 4 EXRULE choices x 2 RDATE choices x 2 value types) and the six long lists, COUNT=5 under ASan+bounds; '
+                     'parameter orders: 11 spellings per value, up to 3 values (80 707 texts; up to 2 under ASan+bounds), zoned date-time lists of 1..2 days x 3 spellings per line x 5 configurations (11 130 texts each for EXDATE and RDATE)',
             'thorough': 'quick + universe variants 1 and 2 (the mid-gap and inside instants that do not fit into 11 for COUNT 5 with a duration) '
                         '+ the whole quick bound under ASan+bounds; long lists n = 1..300 (every rotation) and n = 520, 620 .. 1320 (5 rotations each; '
-                        'beyond the 512-element scratch space of the sort); clones for COUNT=8 also under ASan+bounds',
+                        'beyond the 512-element scratch space of the sort); clones for COUNT=8 also under ASan+bounds; parameter orders up to 4 values (1 106 347 texts), zoned lists of 1..3 days (338 730 texts each)',
         },
         'drivers': [
             D('c02_zonemix', ['mode=exdate', 'maxlist=4'], ['mode=exdate', 'maxlist=5'], label='zonemix-exdate', shards=4),
@@ -47,6 +49,11 @@ def register(PROPS):
             D('c02_datelist', ['mode=exdate', 'maxlist=3'], ['mode=exdate', 'maxlist=4'], label='datelist-exdate', shards=8),
             D('c02_datelist', ['mode=rdate', 'maxlist=3'], ['mode=rdate', 'maxlist=4'], label='datelist-rdate', shards=8),
             D('c02_datelist', ['mode=exdate', 'maxlist=2'], label='datelist-exdate-asan', shards=4, variant='asan'),
+            D('c02_zonemix', ['mode=paramorder', 'maxlist=3'], ['mode=paramorder', 'maxlist=4'], label='paramorder', shards=8),
+            D('c02_zonemix', ['mode=paramorder', 'maxlist=2'], label='paramorder-asan', shards=4, variant='asan'),
+            D('c02_datelist', ['mode=exdate', 'form=zoned', 'maxlist=2'], ['mode=exdate', 'form=zoned', 'maxlist=3'], label='datelist-zoned-exdate', shards=8),
+            D('c02_datelist', ['mode=rdate', 'form=zoned', 'maxlist=2'], ['mode=rdate', 'form=zoned', 'maxlist=3'], label='datelist-zoned-rdate', shards=8),
+            D('c02_datelist', ['mode=exdate', 'form=zoned', 'maxlist=2'], label='datelist-zoned-exdate-asan', shards=4, variant='asan'),
             D('c02_exdate', ['uni=0', _ALL], shards=64, label='uni0'),
             D('c02_exdate', ['uni=1', _ALL], shards=32, label='uni1', tiers=('thorough',)),
             D('c02_exdate', ['uni=2', _ALL], shards=32, label='uni2', tiers=('thorough',)),
@@ -72,6 +79,9 @@ def register(PROPS):
             'coarser FREQ with DTSTART supplying the rest); given by closed formulas in the driver, not by the code under test',
             'the base events (no RDATE, no exception) deliver exactly COUNT instances at the expected instants; checked at run time (precond/base signature otherwise)',
             'all values are UTC date-times or floating dates; exceptions and RDATEs have the value type of DTSTART',
+            'paramorder / form=zoned: RFC 5545 puts no order on the parameters of a property line and DATE-TIME is the default value type of EXDATE and RDATE, so VALUE=DATE-TIME before or after TZID changes nothing; '
+            'a local time with TZID names the instant that DTSTART with the same TZID and local time names (zoned: taken from the event\'s own occurrences, no zone table in the harness); '
+            'paramorder compares starts as sets (an RDATE equal to a rule instance may be delivered once or twice, judged by duprdate)',
             'c02_longlist: the RDATE days are never rule instances (rule on even days, RDATE on odd days), so the open question of an RDATE equal to a rule instance does not arise; each start must be delivered once',
             'c02_clone: clone_echs_evstrm() of an event\'s stream stands for the event from the current position on: it must deliver what the original still has to deliver (the recurrence set of the property without the starts already popped); a peek (echs_evstrm_next) consumes nothing; taking, popping and freeing clones does not change what the original delivers',
         ],
